@@ -1,5 +1,6 @@
 import NurbsVerif.Model.Knots2
 import NurbsVerif.Lemmas.Locality
+import NurbsVerif.Lemmas.Pieces
 
 /-!
 # C07  Splitting and Bézier decomposition reproduce the original piecewise
@@ -25,6 +26,32 @@ theorem decompose_bezier_unchanged (dir : ℕ) (tol : K) (fuel : ℕ) (S : Shape
     (h : ((S.kv dir).drop (S.deg dir + 1)).take ((S.kv dir).length - 2 * (S.deg dir + 1)) = []) :
     decomposeDir dir tol (fuel + 1) S = [S] := by
   simp only [decomposeDir, h]
+
+/-- **Left piece** (as built by `split_curve`, before its knot vector is normalised): with `m` the
+    index of the last copy of the split parameter in the refined knot vector `U'` (C04 says the refined
+    curve IS the original curve), `U'[0 : m+1] ++ [ub]` with the first `m-p+1` control points evaluates
+    like the refined curve on every span left of the split parameter. -/
+theorem left_piece_coincides (p : ℕ) (Ul : List K) (Q : List (List K)) (ub u : K) (m κ : ℕ)
+    (hm : m < Ul.length) (hpκ : p ≤ κ) (hκm : κ + p ≤ m) :
+    curvePointAt p (fnOf (Ul.take (m + 1) ++ [ub])) (Q.take (m - p + 1)) κ u = curvePointAt p (fnOf Ul) Q κ u :=
+  Geomdl.left_piece_coincides p Ul Q ub u m κ hm hpκ hκm
+
+/-- **Right piece**: `[ub]*(p+1) ++ U'[m+1:]` with the control points from index `m-p` on evaluates, on
+    span `κ₂` of the piece, like the refined curve on span `κ₂ + (m-p)`. -/
+theorem right_piece_coincides (p d : ℕ) (Ul : List K) (Q : List (List K)) (ub u : K) (m κ₂ : ℕ)
+    (hpm : p ≤ m) (hm : m + 1 < Ul.length) (hpκ : p ≤ κ₂) (hQ : NetOk d Q) (hmQ : m - p < Q.length)
+    (hmult : ∀ x, m - p < x → x ≤ m → fnOf Ul x = ub) :
+    curvePointAt p (fnOf (List.replicate (p + 1) ub ++ Ul.drop (m + 1))) (Q.drop (m - p)) κ₂ u
+      = curvePointAt p (fnOf Ul) Q (κ₂ + (m - p)) u :=
+  Geomdl.right_piece_coincides p d Ul Q ub u m κ₂ hpm hm hpκ hQ hmQ hmult
+
+/-- **The affine map of the piece's domain**: the piece's constructor normalises its knot vector; the
+    normalised piece at `(u - first)/(last - first)` is the un-normalised piece at `u`. -/
+theorem normalized_piece_coincides (p : ℕ) (V : List K) (P : List (List K)) (κ : ℕ) (u : K) (hne : V ≠ [])
+    (hrange : V.getLastD 0 - V.headD 0 ≠ 0) :
+    curvePointAt p (fnOf (knotNormalize V)) P κ ((u - V.headD 0) / (V.getLastD 0 - V.headD 0))
+      = curvePointAt p (fnOf V) P κ u :=
+  normalized_piece p V P κ u hne hrange
 
 /-- ingredient of "each piece coincides with the original": A2.2 reads the knot vector only on the
     window `κ-p+1 … κ+p`, so a piece's basis functions equal the original's wherever the two knot
